@@ -268,7 +268,29 @@ def kill_threads(res, tier, seed):
         pts = fault_points(steps)
         kill_one(res, {'kind': 'kill', 'scenario': name, 'point': r.choice(pts),
                        'peer_closes': r.random() < 0.5})
+    # the provider thread has died of something that is not the transport's fault (the user's data
+    # stream fails while being fragmented inside the provider thread): a stop request still completes
+    for k in range(3 if tier == 'quick' else 30):
+        kill_one(res, {'kind': 'kill', 'scenario': 'A1-echo', 'point': [2, 0], 'peer_closes': k % 2 == 1,
+                       'crash': ['first', 'second', 'type-error'][k % 3]})
     return res
+
+
+def _failing_message(how):
+    """What Association.send hands to the provider for a message whose data set is a stream: a
+    generator of P-DATA-TF PDUs - here one whose source breaks."""
+    from . import fixtures as F
+    from . import libmap
+    first = libmap.PDU_CLASSES[4].decode(F.PEER['pPART'])
+
+    def gen():
+        if how == 'first':
+            raise ValueError('I/O operation on closed file')
+        yield first
+        if how == 'type-error':
+            raise TypeError('a bytes-like object is required')
+        raise OSError(5, 'Input/output error')       # an I/O error of the *file*, not of the socket
+    return gen()
 
 
 def kill_one(res, case):
@@ -298,6 +320,10 @@ def kill_one(res, case):
             elif step[0] == 'close':
                 b.close()
                 time.sleep(0.06)
+        if case.get('crash'):
+            res.count('sim.provider-thread-crashed')
+            prov.send(_failing_message(case['crash']))
+            time.sleep(0.15)
         if case['peer_closes']:
             try:
                 b.close()
